@@ -14,6 +14,7 @@ var _ = verifReg("C09", VerifC09)
 // ---------- the wire tables (literals from the property statement) ----------
 
 type wireEntry struct {
+	present bool // the claim is set (absent optional claims are listed with present=false)
 	key  int64
 	kind int
 	u    uint64 // uint value / nint n
@@ -22,90 +23,66 @@ type wireEntry struct {
 	list *genSws // kind == ikArray: the component list
 }
 
-func wireInt(key int64, v int64) wireEntry {
+func wireInt(key int64, v int64, present bool) wireEntry {
+	e := wireEntry{present: present, key: key, kind: wireIntKind(v), u: wireIntU(v)}
+	return e
+}
+
+func wireIntKind(v int64) int {
 	if v >= 0 {
-		return wireEntry{key: key, kind: ikUint, u: uint64(v)}
+		return ikUint
 	}
-	return wireEntry{key: key, kind: ikNint, u: uint64(-1 - v)}
+	return ikNint
 }
 
-func (g *genP1) wire() []wireEntry {
-	var w []wireEntry
-	if g.hasProfile {
-		w = append(w, wireEntry{key: -75000, kind: ikTstr, s: g.profile})
+func wireIntU(v int64) uint64 {
+	if v >= 0 {
+		return uint64(v)
 	}
-	w = append(w, wireInt(-75001, int64(g.clientID)))
-	w = append(w, wireEntry{key: -75002, kind: ikUint, u: uint64(g.lc)})
-	w = append(w, wireEntry{key: -75003, kind: ikBstr, b: g.implID})
-	w = append(w, wireEntry{key: -75004, kind: ikBstr, b: g.boot})
-	if g.hasCertRef {
-		w = append(w, wireEntry{key: -75005, kind: ikTstr, s: g.certRef})
-	}
-	if g.sw.count() > 0 {
-		w = append(w, wireEntry{key: -75006, kind: ikArray, list: g.sw})
-	}
-	if g.hasNoSw {
-		w = append(w, wireEntry{key: -75007, kind: ikUint, u: uint64(g.noSw)})
-	}
-	w = append(w, wireEntry{key: -75008, kind: ikBstr, b: g.nonce})
-	w = append(w, wireEntry{key: -75009, kind: ikBstr, b: g.instID})
-	if g.hasVSI {
-		w = append(w, wireEntry{key: -75010, kind: ikTstr, s: g.vsi})
-	}
-	return w
+	return uint64(-1 - v)
 }
 
-func (g *genP2) wire() []wireEntry {
-	var w []wireEntry
-	w = append(w, wireEntry{key: 265, kind: ikTstr, s: g.profStr})
-	w = append(w, wireInt(2394, int64(g.clientID)))
-	w = append(w, wireEntry{key: 2395, kind: ikUint, u: uint64(g.lc)})
-	w = append(w, wireEntry{key: 2396, kind: ikBstr, b: g.implID})
-	if g.hasBoot {
-		w = append(w, wireEntry{key: 2397, kind: ikBstr, b: g.boot})
-	}
-	if g.hasCertRef {
-		w = append(w, wireEntry{key: 2398, kind: ikTstr, s: g.certRef})
-	}
-	w = append(w, wireEntry{key: 2399, kind: ikArray, list: g.sw})
-	w = append(w, wireEntry{key: 10, kind: ikBstr, b: g.nonces[0]}) // a single nonce is a bare byte string
-	w = append(w, wireEntry{key: 256, kind: ikBstr, b: g.instID})
-	if g.hasVSI {
-		w = append(w, wireEntry{key: 2400, kind: ikTstr, s: g.vsi})
-	}
-	return w
-}
-
-func (g *genSw) wire() []wireEntry {
-	var w []wireEntry
-	if g.hasMT {
-		w = append(w, wireEntry{key: 1, kind: ikTstr, s: g.mt})
-	}
-	w = append(w, wireEntry{key: 2, kind: ikBstr, b: g.mv})
-	if g.hasVer {
-		w = append(w, wireEntry{key: 4, kind: ikTstr, s: g.ver})
-	}
-	w = append(w, wireEntry{key: 5, kind: ikBstr, b: g.sid})
-	if g.hasDesc {
-		w = append(w, wireEntry{key: 6, kind: ikTstr, s: g.desc})
-	}
-	return w
-}
+// wire: the profile's wire table for a VALID generated claims-set (every key of the profile,
+// with present=false for optional claims that are not set)
+func (g *genP1) wire() []wireEntry { return g.wireAny() }
+func (g *genP2) wire() []wireEntry { return g.wireAny() }
+func (g *genSw) wire() []wireEntry { return g.wireAny() }
 
 // wireMatches: the item is a map holding PRECISELY the table's keys (no more, no fewer, no
 // duplicates), each with the table's CBOR type and exact value; nothing is null.
 func wireMatches(it *vItem, w []wireEntry) bool {
-	if it == nil || it.kind != ikMap || len(it.keys) != len(w) || len(it.elems) != len(w) {
+	if it == nil || it.kind != ikMap {
 		return false
 	}
+	// every present entry of the item carries a key of the table (no foreign keys) ...
+	for i, k := range it.keys {
+		if !it.has[i] {
+			continue
+		}
+		known := false
+		for _, e := range w {
+			if e.key == k {
+				known = true
+			}
+		}
+		if !known {
+			return false
+		}
+	}
+	// ... and every table key is present exactly when the claim is set, once, with the right item
 	for _, e := range w {
 		n := 0
-		for _, k := range it.keys {
-			if k == e.key {
+		for i, k := range it.keys {
+			if k == e.key && it.has[i] {
 				n++
 			}
 		}
-		if n != 1 || !wireEntryMatches(it.get(e.key), e) {
+		if e.present {
+			c, _ := it.get(e.key)
+			if n != 1 || !wireEntryMatches(c, e) {
+				return false
+			}
+		} else if n != 0 {
 			return false
 		}
 	}
@@ -192,12 +169,22 @@ func itemEq(a, b *vItem) bool {
 		return verifSameBytes(a.b, b.b)
 	case ikTstr:
 		return a.s == b.s
-	case ikArray, ikMap:
-		if len(a.elems) != len(b.elems) || len(a.keys) != len(b.keys) {
+	case ikArray:
+		if len(a.elems) != len(b.elems) {
 			return false
 		}
 		for i := range a.elems {
-			if (a.kind == ikMap && a.keys[i] != b.keys[i]) || !itemEq(a.elems[i], b.elems[i]) {
+			if !itemEq(a.elems[i], b.elems[i]) {
+				return false
+			}
+		}
+	case ikMap:
+		// same entries in the same order (both come from the same struct walk)
+		if len(a.elems) != len(b.elems) {
+			return false
+		}
+		for i := range a.elems {
+			if a.keys[i] != b.keys[i] || a.has[i] != b.has[i] || (a.has[i] && !itemEq(a.elems[i], b.elems[i])) {
 				return false
 			}
 		}
